@@ -170,6 +170,39 @@ def _case(args):
     return rec
 
 
+def _import_cache_history(seed):
+    """a cached parser whose grammar imports a file: random histories of (construct through the cache | edit the imported file); after every construction
+    the cached parser must behave like a direct build of the grammar as it is *now* (parse, interactive, scan)"""
+    import tempfile, shutil, os, logging
+    from lark import Lark, Tree, Token
+    from lark.exceptions import UnexpectedInput
+    logging.getLogger('lark').setLevel(logging.CRITICAL)
+    rng = random.Random(seed)
+    d = tempfile.mkdtemp(prefix='larkverif_c11_')
+    try:
+        variants = ['item: "a"\n', 'item: "a" | "b" "a"\n', 'item: "b"+\n', 'item: "a" "b"?\n']
+        main = '%import .mod.item\nstart: item+\n%ignore " "\n'
+        mpath, cpath = os.path.join(d, 'mod.lark'), os.path.join(d, 'cache.bin')
+        cur = rng.randrange(len(variants)); open(mpath, 'w').write(variants[cur])
+        texts = ['a', 'b a', 'b b', 'a b', 'a a b', '']
+        ns = (Tree, Token, UnexpectedInput)
+        hist, fails = [], []
+        for step in range(rng.randint(3, 8)):
+            if rng.random() < 0.4:
+                cur = rng.choice([v for v in range(len(variants)) if v != cur]); open(mpath, 'w').write(variants[cur])
+                hist.append(['edit', variants[cur]])
+            else:
+                pc = Lark(main, parser='lalr', source_path=os.path.join(d, 'main.lark'), cache=cpath)
+                pd = Lark(main, parser='lalr', source_path=os.path.join(d, 'main.lark'))
+                hist.append(['build'])
+                if behave(pc, texts, ns) != behave(pd, texts, ns):
+                    fails.append({'history': list(hist), 'imported_file_now': variants[cur]})
+                    break
+        return {'history': hist, 'fails': fails}
+    finally:
+        shutil.rmtree(d, ignore_errors=True)
+
+
 def run(ctx, res):
     rng = random.Random(ctx['seed'] * 1000003 + 11)
     # ---- serialisation core vs the Lean model
@@ -197,6 +230,16 @@ def run(ctx, res):
                 Lark.load(buf).parse(w['text'])
             except UnexpectedInput:
                 res.violation('regression of fixed finding F3: ' + f['what'], w)
+    hs = [rng.randrange(1 << 30) for _ in range(tier_scale(ctx['tier'], 120, 1500))]
+    for seed, (st, rec) in zip(hs, pmap(_import_cache_history, hs, chunksize=4)):
+        if st != 'ok':
+            if st == 'exc' and not exc_in_lark(rec):
+                raise InfraError(rec)
+            res.violation('constructing a cached parser with an imported grammar raised', {'seed': seed, 'detail': rec}); continue
+        res.case(['import_cache', rec['history']], nontrivial=len(rec['history']) > 2)
+        res.count('import_cache_histories')
+        for f in rec['fails']:
+            res.violation('a parser restored from the cache does not behave like a direct build of the grammar (the imported file was edited in between)', f)
     N = tier_scale(ctx['tier'], 900, 9000) * (3 if ctx['deepen'] else 1)
     jobs = [(shapelib.gen_grammar(rng), rng.randrange(1 << 30), i % 3 == 0) for i in range(N)]
     outs = pmap(_case, jobs, chunksize=2)
